@@ -6,6 +6,7 @@ import (
 	"math/big"
 
 	secp256k1 "gitlab.com/yawning/secp256k1-voi"
+	"gitlab.com/yawning/secp256k1-voi/secec"
 	"gitlab.com/yawning/secp256k1-voi/secec/bitcoin"
 
 	"verifharness/gen"
@@ -41,6 +42,7 @@ func runC13(r *mon.Run) {
 		"c13:wrong-key", "c13:sig-length", "c13:accept", "c13:reject", "c13:msglen=0", "c13:msglen!=32", "c13:key:on-curve", "c13:key:off-curve", "c13:key:x>=p", "c13:key:wrong-length", "c13:key-handouts-mutated"} {
 		r.Require(c)
 	}
+	r.Require("c13:key-via:NewSchnorrPublicKeyFromECDSA(odd-y, from compressed bytes)", "c13:key-via:NewSchnorrPublicKeyFromPoint(odd-y)", "c13:key-via:NewSchnorrPublicKey")
 	r.Each("c13/verify", r.N(3000, 120000), func(w *mon.W, i int) {
 		rng := w.Rng
 		d0, _ := keyValue(rng)
@@ -157,11 +159,15 @@ func runC13(r *mon.Run) {
 		if i < 3 {
 			w.Sample(map[string]any{"op": "SchnorrPublicKey.Verify", "class": cl, "pk": hx(usePk), "msg": hx(msg), "sig": hx(sig), "bip340_verify": want})
 		}
-		k, err := bitcoin.NewSchnorrPublicKey(usePk)
+		// the verifying key OBJECT comes from any of the constructors, fed with either of the
+		// two points that have this x-coordinate: BIP-340 keys are x-only
+		k, ctor, err := schnorrPubVia(rng, usePk)
+		w.Class("c13:key-via:" + ctor)
 		if err != nil {
-			w.Fail("c13/NewSchnorrPublicKey", fmt.Sprintf("valid x-only key %x rejected: %v", usePk, err))
+			w.Fail("c13/NewSchnorrPublicKey", fmt.Sprintf("valid x-only key %x rejected by %s: %v", usePk, ctor, err))
 			return
 		}
+		cl += ",key via " + ctor
 		if i%3 == 0 {
 			// the caller mutates what the key object handed out (a Taproot-style tweak of
 			// Point(), an overwritten Bytes()) before verifying with it
@@ -411,4 +417,41 @@ func runC13(r *mon.Run) {
 			w.Fail("c13/final-R", fmt.Sprintf("final R checks (not infinite, even y, x(R)=r) on R=%v [Z=%x], r=%x: %v, expected %v", P, z, rx, g, want))
 		}
 	})
+}
+
+// schnorrPubVia builds the x-only key for the valid x-coordinate xb through one
+// of the public constructors, handing the point-based ones either lift of x.
+func schnorrPubVia(rng *gen.Rng, xb []byte) (*bitcoin.SchnorrPublicKey, string, error) {
+	x := oracle.FromBytes(xb)
+	P := oracle.LiftX(x, uint(rng.Intn(2)))
+	if P == nil || x.Cmp(bigP) >= 0 || len(xb) != 32 {
+		k, err := bitcoin.NewSchnorrPublicKey(xb)
+		return k, "NewSchnorrPublicKey", err
+	}
+	par := "even-y"
+	if P.Y.Bit(0) == 1 {
+		par = "odd-y"
+	}
+	switch rng.Intn(5) {
+	case 0:
+		z, _ := repZ(rng)
+		k, err := bitcoin.NewSchnorrPublicKeyFromPoint(pointRep(P, z))
+		return k, "NewSchnorrPublicKeyFromPoint(" + par + ")", err
+	case 1:
+		pk, err := secec.NewPublicKey(oracle.EncodeCompressed(P))
+		if err != nil {
+			return nil, "secec.NewPublicKey", err
+		}
+		return bitcoin.NewSchnorrPublicKeyFromECDSA(pk), "NewSchnorrPublicKeyFromECDSA(" + par + ", from compressed bytes)", nil
+	case 2:
+		z, _ := repZ(rng)
+		pk, err := secec.NewPublicKeyFromPoint(pointRep(P, z))
+		if err != nil {
+			return nil, "secec.NewPublicKeyFromPoint", err
+		}
+		return bitcoin.NewSchnorrPublicKeyFromECDSA(pk), "NewSchnorrPublicKeyFromECDSA(" + par + ", from a point)", nil
+	default:
+		k, err := bitcoin.NewSchnorrPublicKey(xb)
+		return k, "NewSchnorrPublicKey", err
+	}
 }
